@@ -69,7 +69,7 @@ def gen(seed, tier):
     for prog, scheds in HAND:
         cases += [prog + " / " + s for s in scheds]
     stats["hand"] = len(cases) - stats["corpus"]
-    nprog, nsched = (300, 10) if tier == "quick" else (2000, 20)
+    nprog, nsched = (300, 10) if tier == "quick" else (1200, 16)
     for _ in range(nprog):
         p = rand_program(r)
         for _ in range(nsched):
